@@ -26,6 +26,10 @@ GOENV = dict(os.environ, GOFLAGS="-mod=mod", GOPROXY="off", GOSUMDB="off",
              GOTOOLCHAIN="local", CGO_ENABLED=os.environ.get("CGO_ENABLED", "1"))
 
 
+class Deadlock(Exception):
+    pass
+
+
 class Infra(Exception):
     """Infrastructure failure: exit 2, never a violation."""
 
@@ -119,6 +123,16 @@ class Ctx:
             p = subprocess.run([binp] + args + ["-out", out], env=e, capture_output=True, text=True, timeout=timeout, preexec_fn=pre)
         except subprocess.TimeoutExpired:
             raise Infra("harness %s timed out after %ds" % (args[0], timeout))
+        if p.returncode != 0 and "all goroutines are asleep - deadlock" in p.stderr and not allow_fail:
+            # every goroutine of the harness process is blocked, at least one of them inside the library: the call never returns
+            frames = re.findall(r"github\.com/minio/simdjson-go\.([^\n(]*(?:\([^)]*\))?[^\n(]*)\(", p.stderr)
+            where = frames[0] if frames else "?"
+            blocked = re.findall(r"goroutine \d+ \[([^\]]+)\]:\ngithub\.com/minio/simdjson-go", p.stderr)
+            self.mismatches.append({"property": self.prop, "sig": "deadlock:%s:%s" % (args[0], where), "input": " ".join(args[:4]),
+                                    "want": "every call returns (both stages terminate)",
+                                    "got": "fatal error: all goroutines are asleep - deadlock! (blocked in %s, %s)" % (where, ", ".join(blocked[:3]) or "?"),
+                                    "detail": p.stderr[:3000]})
+            raise Deadlock("%s: blocked in %s" % (args[0], where))
         if p.returncode != 0 or not os.path.exists(out):
             if allow_fail:
                 return {"failed": True, "rc": p.returncode, "stderr": p.stderr[-6000:], "stderr_head": p.stderr[:3000], "stdout": p.stdout[-2000:]}
@@ -356,6 +370,10 @@ def main(props):
         else:
             fn(ctx)
             rc = ctx.finish()
+    except Deadlock as ex:
+        # the Go runtime itself declared the real code deadlocked: a violation with the blocked library frame as signature
+        log("the harness was stopped by the Go runtime: %s" % ex)
+        rc = ctx.finish()
     except Infra as ex:
         log("INFRA-ERROR property=%s: %s" % (a.prop, ex))
         rc = 2
